@@ -1117,6 +1117,74 @@ pub fn run_case(tier: &str, seed: u64, idx: u64) -> CaseOut {
     out
 }
 
+/// A short write, truthfully reported: `RandomAccessFile::append` returns how many bytes it took.
+/// The scratch file that becomes CURRENT is written through it. One append on that file takes
+/// only the first few bytes and says so; whatever the database makes of it (an error from open, or
+/// going on), once the limit is lifted the database must open and hold every acknowledged write.
+fn case_short_append(out: &mut CaseOut, seed: u64, j: u64) {
+    let mut rng = Rng::new(mix(&[seed, j], "c08-short-append"));
+    let d = director();
+    d.reset(rng.next_u64());
+    let fs = SimFs::from_image(&dbutil::root_image());
+    let cfg = Config { memtable: *rng.pick(&[512usize, 4096]), file: 2048, block: 256, reuse: false };
+    let mut sess = Session::new(fs.clone(), cfg);
+    let at_creation = j % 3 == 2;
+    let limit = *rng.pick(&[0usize, 1, 9, 10, 19]);
+    let ctx = json!({"family": "short-append-on-the-scratch-file-of-CURRENT", "append_takes_at_most_bytes": limit, "at_creation_of_the_database": at_creation, "config": cfg.describe()});
+    if at_creation {
+        fs.set_short_append(PathClass::Temp, limit, 1);
+    }
+    let mut acknowledged: crate::session::Map = Default::default();
+    let first_open = sess.open();
+    if first_open.is_ok() {
+        for i in 0..rng.range(5, 40) {
+            let (k, v) = (format!("key{i:03}").into_bytes(), format!("value-{i}").into_bytes());
+            if sess.put(&k, &v).is_ok() {
+                acknowledged.insert(k, v);
+            }
+        }
+        sess.close();
+    }
+    if !at_creation {
+        // the open that switches CURRENT to a fresh manifest meets the short append
+        fs.set_short_append(PathClass::Temp, limit, 1);
+        if sess.open().is_ok() {
+            let (k, v) = (b"written-after-the-short-append".to_vec(), b"x".to_vec());
+            if sess.put(&k, &v).is_ok() {
+                acknowledged.insert(k, v);
+            }
+            sess.close();
+        }
+    }
+    let fired = fs.short_appends_done();
+    fs.set_short_append(PathClass::Temp, 0, 0);
+    out.add("short_appends_done", fired);
+    // the limit is gone
+    sess.cfg = Config { reuse: rng.chance(0.5), ..cfg };
+    match sess.open() {
+        Err(e) => {
+            out.violate("C08/short-append/open-failed-after-the-limit-was-lifted", json!({"ctx": ctx, "error": e, "files": fs.image().listing(), "acknowledged_writes": acknowledged.len()}));
+        }
+        Ok(()) => {
+            match sess.scan(None) {
+                Ok(entries) => {
+                    let got: crate::session::Map = entries.into_iter().collect();
+                    let lost: Vec<String> = acknowledged.iter().filter(|(k, v)| got.get(*k) != Some(*v)).take(5).map(|(k, _)| show(k)).collect();
+                    if !lost.is_empty() {
+                        out.violate("C08/short-append/acknowledged-writes-lost", json!({"ctx": ctx, "lost": lost}));
+                    }
+                }
+                Err(e) => out.violate("C08/short-append/read-error-after-the-limit-was-lifted", json!({"ctx": ctx, "error": e})),
+            }
+            sess.close();
+        }
+    }
+    if fired > 0 {
+        out.nontrivial(format!("short-append/limit{limit}/creation{}", at_creation as u8));
+    }
+    out.sample = Some(ctx);
+}
+
 fn run_case_inner(tier: &str, seed: u64, idx: u64) -> CaseOut {
     let mut out = CaseOut::new();
     // the cases behind the single-fault enumeration tie the fault to a phase of the background work
@@ -1129,6 +1197,7 @@ fn run_case_inner(tier: &str, seed: u64, idx: u64) -> CaseOut {
     if idx % GROUP_EVERY == GROUP_EVERY - 1 {
         let j = idx / GROUP_EVERY;
         match j % 5 {
+            0 if j % 10 == 0 => case_short_append(&mut out, seed, j / 10),
             2 => case_fault_during_manual_compaction(&mut out, seed, j / 5),
             3 => case_iterator_faults(&mut out, seed, j / 5),
             4 => case_manifest_fault_in_nested_flush(&mut out, seed, j / 5),
